@@ -9,18 +9,15 @@ from harness import fw, types_x as tx, gen_typed as gt
 
 META = {
     "technique": "Coq proof that a table-driven Gallina mirror of type_check.py decides the documented typing relation (for the documented table: exactly; for the implementation's table: completeness + soundness outside an explicit boolean guard; refutation witnesses for the rest) + operator-signature table regenerated each run by executing type_check on ~770 probe expressions and probe modules + differential correspondence on generated modules and single-rule violations",
-    "level_text": "Machine-checked theorems (Coq 8.16, no axioms), for ALL expression trees and ALL modules of the modelled item language: typecheck(doc_table) accepts <-> derivable in the documented relation; typecheck(impl_table) is complete, and sound under guard/mguard; the unguarded statement is refuted by four witnesses (enum ordering F13, any-enum parameter F14, $present(parameter) F12, non-integer enum value); well-typed expressions evaluate to a value of their type in every well-typed environment; a reported error lies at a node of the first item that is not well typed; the documented table never reaches the assertion the implementation's table reaches. impl_table is compared each run with the table derived from probes of the working tree's type_check.py, and every probe outcome is re-checked against the model's operator-level function.",
+    "level_text": "Machine-checked theorems (Coq 8.16, no axioms), for ALL expression trees and ALL modules of the modelled item language: typecheck(doc_table) accepts <-> derivable in the documented relation; typecheck(impl_table) is complete, and sound under guard/mguard; the unguarded statement is refuted by the one remaining witness (ordering of two values of one enum, F13; the former witnesses F12, F14, non-integer enum value and the assertion on a boolean actual were repaired in /repo and are now positive theorems); well-typed expressions evaluate to a value of their type in every well-typed environment; a reported error lies at a node of the first item that is not well typed; neither table can reach a crash result. impl_table is compared each run with the table derived from probes of the working tree's type_check.py, and every probe outcome is re-checked against the model's operator-level function.",
     "level_note": "Trusted: Coq kernel + vm_compute; harness/types_x.py (probe construction, IR->item translator, leaf types taken from type_check.unbounded_expression_type_for_physical_type); harness/gen_typed.py decides what the language reference says about each generated case (its catalogue is the 'documented rule' side). Modelled, not verified: the Python source. Not modelled: what the checker does AFTER its first error (a second defect class found by the harness: unannotated operands crash a parent ==/?:), builtin references ($is_statically_sized), static references to physical fields, array-typed parameters (counted as out-of-model).",
 }
 
 HEADER = "Require Import EmbossV.Types.Model EmbossV.Types.Exec.\n"
 
-QUIRK_RULES = {"ordering-enum-operands", "parameter-other-enum", "present-of-parameter", "enum-value-not-integer"}
+QUIRK_RULES = {"ordering-enum-operands"}
 
 KNOWN_BY_RULE = dict(gt.C13_KNOWN)
-KNOWN_BY_RULE["enum-value-not-integer"] = "typecheck-enum-value-type-unchecked"
-KNOWN_BY_RULE["ok:array-length-with-boolean-subexpression"] = "typecheck-array-size-subexpressions-checked"
-KNOWN_BY_RULE["ok:imported-type-named-flag"] = "typecheck-user-type-named-flag-is-boolean"
 
 
 def crash_key(crash, rule=None):
